@@ -172,7 +172,9 @@ def answers(cls):
             out.append(["raised", repr(ex)]); continue
         if v:
             try:
-                out.append([True, str(e.overhang_start()), str(e.overhang_end()), str(e.target_sequence().seq)])
+                t_ = e.target_sequence()
+                out.append([True, str(e.overhang_start()), str(e.overhang_end()), str(t_.seq),
+                            sorted((f.type, str(f.location)) for f in t_.features), len(e.record.features)])
             except Exception as ex:
                 out.append([True, "raised", repr(ex)])
         else:
@@ -278,6 +280,11 @@ def bounded(ctx):
             inst, _ = gen.instance(s, rng, run=rng.randint(4, 9))
             k = rng.randrange(len(inst))
             records.append(inst[k:] + inst[:k] if rng.random() < 0.5 else inst)
+        # the origin exactly at the start of the first overhang (a left rotation by that offset is the identity rotation of
+        # the rotated plasmid: whatever typing leaves behind on the record shows in the next answer)
+        inst, spans = gen.instance(s, rng, run=rng.randint(4, 9))
+        if 1 in spans:
+            records.append(inst[spans[1][0]:] + inst[:spans[1][0]])
     # records on which a structure matches at more than one start (two units of the same structure in one plasmid, at
     # a random rotation): the answer is the leftmost match, whatever was matched before
     for s in structures[:: max(1, len(structures) // 8)]:
